@@ -1,5 +1,6 @@
 """C16 — Converting between XMI and JSON preserves the CAS."""
 from harness import casgen, common, sessions
+from harness.common import bud
 from harness.props import c01, c05
 
 PROP = "C16"
@@ -24,7 +25,7 @@ def run(ctx, out, budget):
                 "JSON-embedded type system; the coarse id-keyed dump of the last CAS must equal the dump of the CAS loaded first; the "
                 "same chain is executed by the model. Non-trivial = distinct (CAS, chain) with >= 3 structures.")
     rng = ctx.rng(0)
-    n = 100 if budget == "quick" else 20000
+    n = bud(budget, 100, 20000)
     cases = [casgen.CasGen(rng, n_types=rng.randint(1, 5), n_fs=rng.randint(1, 10), xmi_safe=True).build() for _ in range(n)]
     sess = []
     for k, g in enumerate(cases):
